@@ -495,7 +495,7 @@ theorem parsed_fixed_full_partial (env : Env) (hl : NfcLaws env.nfc) (hnfc : Nfc
 
 /-- the same for every encodable text that parses to a URL or reference WITHOUT authority (no host, no userinfo):
     no further condition - in particular every well-formed `scheme:path?q#f`, `scheme:///path`, relative reference -/
-theorem parsed_fixed_full_noauth (env : Env) (hl : NfcLaws env.nfc) (hnfc : NfcScalar env.nfc) (t : Text) (u : URL)
+theorem parsed_fixed_full_noauth_partial (env : Env) (hl : NfcLaws env.nfc) (hnfc : NfcScalar env.nfc) (t : Text) (u : URL)
     (ht : ∀ x ∈ t, isScalar x = true)
     (h : URL.ofText env t = .ok u) (hh : u.host = []) (hu : u.username = []) (hp : u.password = []) :
     ∃ t₁ u₁, toText env true u = .ok t₁ ∧ URL.ofText env t₁ = .ok u₁ ∧ toText env true u₁ = .ok t₁ :=
@@ -514,7 +514,7 @@ theorem parsed_fixed_min_partial (env : Env) (hl : NfcLaws env.nfc) (hnfc : NfcS
   have hs := parsed_scalars hnfc h ht
   render_fixed_min_partial env hl u (parsed_WFmin h hne hhost hidna hport hs.username hs.password h1 h2 h3)
 
-theorem parsed_fixed_min_noauth (env : Env) (t : Text) (u : URL)
+theorem parsed_fixed_min_noauth_partial (env : Env) (t : Text) (u : URL)
     (h : URL.ofText env t = .ok u) (hh : u.host = []) (hu : u.username = []) (hp : u.password = [])
     (h1 : ∀ s ∈ u.pathParts, 37 ∉ s) (h2 : ∀ kv ∈ u.query, 37 ∉ kv.1 ∧ ∀ v, kv.2 = some v → 37 ∉ v)
     (h3 : 37 ∉ u.fragment) :
@@ -538,7 +538,7 @@ theorem parsed_roundtrip_full (env : Env) (hl : NfcLaws env.nfc) (hnfc : NfcScal
     whose host is ASCII, not an IPv6 literal and without `[` (a registered name or IPv4 literal), that the idna
     encoder leaves alone, with a natural-number port or none.  `IdnaAsciiId`: a law of the idna decoder (an ASCII
     result is the name that went in). -/
-theorem parsed_fixed_full_name (env : Env) (hl : NfcLaws env.nfc) (hnfc : NfcScalar env.nfc) (hid : IdnaAsciiId env)
+theorem parsed_fixed_full_name_partial (env : Env) (hl : NfcLaws env.nfc) (hnfc : NfcScalar env.nfc) (hid : IdnaAsciiId env)
     (t : Text) (u : URL) (ht : ∀ x ∈ t, isScalar x = true) (h : URL.ofText env t = .ok u)
     (hne : u.host ≠ []) (hasc : isAsciiText u.host = true) (h6 : u.family ≠ .inet6) (h91 : 91 ∉ u.host)
     (henc : env.idnaEnc u.host = some u.host) (hport : PortNat u) :
@@ -546,7 +546,7 @@ theorem parsed_fixed_full_name (env : Env) (hl : NfcLaws env.nfc) (hnfc : NfcSca
   have ⟨hc, hf, hd⟩ := parsed_host_name hid h hne hasc h6 h91
   parsed_fixed_full_partial env hl hnfc t u ht h hne (.name hc hf (fun _ => henc)) (fun _ => hd) hport
 
-theorem parsed_fixed_min_name (env : Env) (hl : NfcLaws env.nfc) (hnfc : NfcScalar env.nfc) (hid : IdnaAsciiId env)
+theorem parsed_fixed_min_name_partial (env : Env) (hl : NfcLaws env.nfc) (hnfc : NfcScalar env.nfc) (hid : IdnaAsciiId env)
     (t : Text) (u : URL) (ht : ∀ x ∈ t, isScalar x = true) (h : URL.ofText env t = .ok u)
     (hne : u.host ≠ []) (hasc : isAsciiText u.host = true) (h6 : u.family ≠ .inet6) (h91 : 91 ∉ u.host)
     (hport : PortNat u)
